@@ -113,13 +113,13 @@ impl Revision {
     pub fn from(s: &str) -> Result<Revision> {
         match FULL_REV.captures(s) {
             Some(r) => Ok(Revision {
-                index: r.name("index").unwrap().as_str().parse::<u32>().unwrap(),
+                index: r.name("index").unwrap().as_str().parse::<u32>()?,
                 digest: r.name("digest").unwrap().as_str().to_string(),
                 tail: Some(r.name("tail").unwrap().as_str().to_string()),
             }),
             None => match FIRST_REV.captures(s) {
                 Some(r) => Ok(Revision {
-                    index: r.name("index").unwrap().as_str().parse::<u32>().unwrap(),
+                    index: r.name("index").unwrap().as_str().parse::<u32>()?,
                     digest: r.name("digest").unwrap().as_str().to_string(),
                     tail: None,
                 }),
